@@ -335,6 +335,11 @@ class Prop:
         """optional second oracle in Python (used when the Coq side cannot be built): 0 = holds"""
         return None
 
+    def extra_fail(self, case, impl):
+        """optional additional oracle evaluated in Python on every case (search only, never a proof):
+        0/None = holds, otherwise a code >= 100 explained in fail_text"""
+        return 0
+
     def known_class(self, case, impl, code):
         """name of the known-finding class this failing case belongs to, or None"""
         return None
@@ -442,6 +447,8 @@ def run_prop(prop, ctx):
                 model_ok = False
         if model_ok:
             for (c, i), cf, fc in zip(items, corr, fail):
+                if fc == 0:
+                    fc = prop.extra_fail(c, i) or 0
                 if fc != 0:
                     # a failing case is covered by a known finding only while the implementation
                     # still behaves exactly as the model of the analysed defect predicts (cf == 0)
@@ -450,7 +457,7 @@ def run_prop(prop, ctx):
                     mismatching.append((c, i))
         else:
             for c, i in items:
-                fc = prop.python_oracle(c, i)
+                fc = prop.python_oracle(c, i) or prop.extra_fail(c, i)
                 if fc:
                     failing.append((c, i, fc))
         need_more = (ctx.broken or mismatching) and not [f for f in failing if f[2] < 0 or not prop.known_class(*f)]
